@@ -1216,6 +1216,8 @@ func runWitness(ctx context.Context, w *rec.Writer, seed uint64, tier string) {
 
 type faultSpec struct{ table, keyCol, faultCol string }
 
+var tInstall, tRemove, tReq, tErr time.Duration
+
 var faultTables = map[int]faultSpec{
 	apiRead:    {"tuple", "ulid", "relation"},
 	apiChanges: {"changelog", "ulid", "relation"},
@@ -1276,6 +1278,27 @@ func sameOutcome(a, b outcome) bool {
 	return true
 }
 
+// changesPrefixContinuation: a non-empty prefix of the fault-free page whose token is "<ulid of its
+// last change>|<type>" -- the next request continues exactly after it.
+func changesPrefixContinuation(b *backend, d *dataset, typ string, got, clean outcome) bool {
+	if got.code != codePage || clean.code != codePage || len(got.items) == 0 || len(got.items) > len(clean.items) {
+		return false
+	}
+	for i := range got.items {
+		if got.items[i] != clean.items[i] {
+			return false
+		}
+	}
+	last := got.items[len(got.items)-1]
+	for i, ch := range d.changes {
+		if ch.key() == last && i < len(b.changeUlid) {
+			dec, ok := decodeWire(got.next)
+			return ok && string(dec) == b.changeUlid[i]+"|"+typ
+		}
+	}
+	return false
+}
+
 func obsV(uni []row, o outcome) rec.V {
 	var nd []byte
 	if o.code == codePage {
@@ -1289,7 +1312,7 @@ func faultStream(ctx context.Context, c *ctxInfo, r *rec.Rand, exhaustive bool) 
 	if b.kind != 1 {
 		return
 	}
-	db, err := sql.Open("sqlite", "file:"+b.dbpath+"?_pragma=busy_timeout(5000)")
+	db, err := sql.Open("sqlite", "file:"+b.dbpath+"?_pragma=busy_timeout(5000)&_pragma=synchronous(OFF)")
 	if err != nil {
 		panic(err)
 	}
@@ -1345,7 +1368,9 @@ func faultStream(ctx context.Context, c *ctxInfo, r *rec.Rand, exhaustive bool) 
 		fs := faultTables[api]
 		for _, k := range ks {
 			bad := doc[k].key
+			t0 := time.Now()
 			installFault(db, fs, bad)
+			tInstall += time.Since(t0)
 			picked := reqs
 			if !exhaustive && len(reqs) > 16 {
 				picked = nil
@@ -1354,7 +1379,12 @@ func faultStream(ctx context.Context, c *ctxInfo, r *rec.Rand, exhaustive bool) 
 				}
 			}
 			for _, rq := range picked {
+				t2 := time.Now()
 				out := call(ctx, b, q, rq.ps, rq.token)
+				tReq += time.Since(t2)
+				if out.code != codePage {
+					tErr += time.Since(t2)
+				}
 				dec, _ := decodeWire(rq.token)
 				w.Case(c.desc("fault", q, rq.ps, map[string]any{"wire": rq.token, "k": k, "n": n}),
 					rec.I(4), rec.I(api), rec.I(rq.ps), rec.S(q.typ), rowsV(rows), rec.B(dec), rec.S(bad),
@@ -1365,16 +1395,17 @@ func faultStream(ctx context.Context, c *ctxInfo, r *rec.Rand, exhaustive bool) 
 					w.Stat("fault_surfaced_as_error", 1)
 				case sameOutcome(out, rq.clean):
 					w.Stat("fault_not_reached_same_answer", 1)
+				case api == apiChanges && changesPrefixContinuation(b, d, q.typ, out, rq.clean):
+					w.Stat("fault_short_page_correct_continuation", 1)
 				default:
 					w.Stat("fault_deviating_answer", 1)
-					if api != apiChanges {
-						// ReadChanges is left to the oracle, which attributes the listed finding by its computed trigger
-						w.PropFail("a storage fault in the middle of the result set was answered with a page that differs from the fault-free answer and no error (items silently lost)",
-							c.desc("fault", q, rq.ps, map[string]any{"wire": rq.token, "k": k, "n": n, "got_items": len(out.items), "got_token_empty": out.next == "", "want_items": len(rq.clean.items)}))
-					}
+					w.PropFail("a storage fault in the middle of the result set was answered with a page that differs from the fault-free answer and no error (items silently lost)",
+						c.desc("fault", q, rq.ps, map[string]any{"wire": rq.token, "k": k, "n": n, "got_items": len(out.items), "got_token_empty": out.next == "", "want_items": len(rq.clean.items)}))
 				}
 			}
+			t1 := time.Now()
 			removeFault(db, fs)
+			tRemove += time.Since(t1)
 		}
 	}
 }
@@ -1479,5 +1510,8 @@ func main() {
 	r := rec.NewRand(o.Seed)
 	for i := 0; i < o.N; i++ {
 		runDataset(ctx, w, o.Seed, o.Tier, i, r.Fork(), maxItems, maxSmall, -1)
+	}
+	if os.Getenv("C14_TIMING") != "" {
+		fmt.Fprintln(os.Stderr, "install", tInstall, "remove", tRemove, "req", tReq, "err", tErr)
 	}
 }
